@@ -288,6 +288,54 @@ fn run(ctx: &mut Ctx) {
             }
         }
     });
+    // ---- lookups from 8 threads at once, each thread staying in its own z slices (far apart) and jumping between times,
+    // every answer against the reference: state shared between threads must not leak from one lookup into another
+    ctx.cases("concurrent", ctx.tier.pick(4, 32), |ctx, i, rng| {
+        let nslices = d.len();
+        let rounds = ctx.tier.pick(20_000usize, 100_000);
+        let seeds: Vec<u64> = (0..8).map(|_| rng.next()).collect();
+        let bad: Vec<Option<String>> = std::thread::scope(|s| {
+            let hs: Vec<_> = (0..8usize)
+                .map(|k| {
+                    let (d, seed) = (&d, seeds[k]);
+                    s.spawn(move || {
+                        let mut r = Rng::new(seed);
+                        let s0 = (k * nslices / 8 + i as usize) % nslices;
+                        for n in 0..rounds {
+                            let sl = (s0 + r.usize(3)) % nslices;
+                            let lo = if sl == 0 { 0.0 } else { d[sl - 1].1 };
+                            let hi = d[sl].1;
+                            let z = match r.below(4) {
+                                0 => hi,
+                                1 => next_up(lo),
+                                _ => lo + (hi - lo) * r.range(0.001, 0.999),
+                            } * if r.bool() { 1.0 } else { -1.0 };
+                            let tmax = d[sl].0[d[sl].0.len() - 1].0;
+                            let t = if r.below(10) == 0 { tmax * r.range(1.0, 1.1) } else { tmax * r.range(0.0, 1.0) };
+                            let l = lib_look(z, t);
+                            let (want, either) = ref_look(d, z, t);
+                            let ok = match (l, want) {
+                                (Look::Ok(a, b), Look::Ok(c, e)) => (a - c).abs() <= 1e-12 && (b - e).abs() <= 1e-12,
+                                (Look::ErrT, Look::ErrT) | (Look::ErrZ, Look::ErrZ) => true,
+                                (Look::ErrT, Look::ErrZ) => either,
+                                _ => false,
+                            };
+                            if !ok {
+                                return Some(format!("thread {} lookup {}: z={:e} t={:e} library {:?} reference {:?}", k, n, z, t, l, want));
+                            }
+                        }
+                        None
+                    })
+                })
+                .collect();
+            hs.into_iter().map(|h| h.join().unwrap_or(Some("thread panicked".into()))).collect()
+        });
+        ctx.eval_n(8 * rounds as u64);
+        match bad.into_iter().flatten().next() {
+            Some(b) => ctx.violation("lookup value depends on what other threads look up at the same time", b, json!({})),
+            None => ctx.count_n("concurrent lookups agreeing with the reference", 8 * rounds as u64),
+        }
+    });
     ctx.cases("signed-zero", 1, |ctx, _i, _rng| {
         for (s, (tab, ub)) in d.iter().enumerate() {
             let prev_ub = if s == 0 { 0.0 } else { d[s - 1].1 };
